@@ -383,3 +383,26 @@ Theorem C18_flushing_transaction_refuted :
     snd (c_step takes c (CTransact p k)) = [OTrans (Ok (frame p)) (Some x)].
 Proof. exact flushing_transaction_refuted. Qed.
 Print Assumptions C18_flushing_transaction_refuted.
+
+(* ---- queues registered at construction: every function has its OWN queue ---- *)
+
+(* For every set of functions registered at construction (CPX(transport, functions)), every later lazy registration and every
+   interleaving of arrivals and receive calls: receivers of f get exactly the f-packets that arrived while f's queue existed
+   (from the start when registered at construction), in arrival order, and only packets of function f. *)
+Theorem C18_router_registered_functions : forall fs evs f,
+  let '(st', os) := r_run (r_reg fs) evs in
+  delivered f os ++ pending f st' = accepted f (zmem f fs) evs /\
+  (forall g p, In (g, Some p) os -> c_fn p = g).
+Proof. exact router_fifo_registered. Qed.
+Print Assumptions C18_router_registered_functions.
+
+(* distinct functions never share a queue: an arrival or receive for one function leaves every other function's queue as it was *)
+Theorem C18_router_queues_distinct : forall st e f, rel f e = false -> fst (r_step st e) f = st f.
+Proof. exact r_step_other_function. Qed.
+Print Assumptions C18_router_queues_distinct.
+
+(* one queue object shared by the functions registered at construction breaks "handed only to receivers of that function" *)
+Theorem C18_shared_queue_refuted :
+  exists members evs g p, In (g, Some p) (sh_run members [] evs) /\ c_fn p <> g.
+Proof. exact shared_queue_refuted. Qed.
+Print Assumptions C18_shared_queue_refuted.
